@@ -19,7 +19,8 @@ type TraitOf[V any] struct {
 func NewTraitOf[V any](config Config, options ...func(t *Trait)) *TraitOf[V] {
 	t := &TraitOf[V]{}
 
-	t.Trait = *NewTrait(config, options...)
+	// Trait is initialized in place, a copy would leave background jobs with a detached expirations counter.
+	t.Trait.init(config, options...)
 
 	return t
 }
